@@ -1249,8 +1249,19 @@ impl ByteCodeGenerator {
                 let t = self.find(&time);
 
                 let dst = self.vregister.add_newvalue(&dst);
-                funcproto.delay_sizes.push(max);
-                Some(VmInstruction::Delay(dst, s, t))
+                // The instruction names its ring size itself: which delays run before it depends on
+                // the branches taken.
+                let size_idx = funcproto
+                    .delay_sizes
+                    .iter()
+                    .position(|size| *size == max)
+                    .unwrap_or_else(|| {
+                        funcproto.delay_sizes.push(max);
+                        funcproto.delay_sizes.len() - 1
+                    });
+                let size_idx =
+                    u8::try_from(size_idx).expect("too many different delay sizes in a function.");
+                Some(VmInstruction::Delay(dst, s, t, size_idx))
             }
             mir::Instruction::Mem(src) => {
                 let s = self.find(&src);
